@@ -102,7 +102,15 @@ def run_case(ctx, rng, index, casedir):
     ok = True
     outcomes = collections.Counter()
     for who, src, dst, fmt in chain:
-        o = run_cli(["view", src, "-g", gpath, "-f", fmt, "-o", dst])
+        if who == "U->S" and (million or rng.random() < 0.15):
+            # default output (stdout), for the big file as an interactive user would run it
+            o = run_cli(["view", src, "-g", gpath, "-f", fmt], tty_stderr=True if million else None)
+            if o.ok:
+                with open(dst, "w") as f:
+                    f.write(o.stdout)
+            sit["stdout_output_runs"] += 1
+        else:
+            o = run_cli(["view", src, "-g", gpath, "-f", fmt, "-o", dst])
         outcomes[f"{who}:{o.kind}"] += 1
         if not o.ok:
             viol.append({"kind": "view_failed", "msg": f"{who}: {o.brief()}", "witness": {"tb": o.tb[-600:]}})
